@@ -3636,6 +3636,7 @@ class NetCDFWrite(IOWrite):
                                 ncdim in x
                                 for x in g["dimensions_with_role"].values()
                             )
+                            and ncdim not in self._dsg_sample_dimensions()
                             and self._dimension_in_subgroup(f, ncdim)
                         ):
                             # The axis asks for the name of a netCDF
@@ -5577,6 +5578,34 @@ class NetCDFWrite(IOWrite):
             # The data is scalar, so 'chunksizes' is () => write the
             # data contiguously.
             return True, None
+
+    def _dsg_sample_dimensions(self):
+        """The netCDF dimensions that DSG ragged arrays are stored on.
+
+        These are the sample dimensions named by the count variables,
+        and the dimensions spanned by the index variables (the sample
+        dimension of an indexed ragged array, the profile dimension of
+        an indexed contiguous ragged array) that have been written to
+        the dataset so far. A variable that spans one of them is, to
+        a reader, a ragged array, so none of them may double as the
+        netCDF dimension of an ordinary domain axis.
+
+        .. versionadded:: (cfdm) NEXTVERSION
+
+        :Returns:
+
+            `set` of `str`
+
+        """
+        g = self.write_vars
+        out = set(g["count_variable_sample_dimension"].values())
+        out.update(g["index_variable_sample_dimension"].values())
+        index_ncvars = set(g["index_variable_sample_dimension"])
+        for v in g["seen"].values():
+            if v["ncvar"] in index_ncvars:
+                out.update(v["ncdims"])
+
+        return out
 
     def _compressed_data(self, ncdimensions):
         """Whether or not the data is being written in compressed form.
